@@ -416,6 +416,139 @@ fn relationship_history(ctx: &mut Ctx) {
     }
 }
 
+// ---------------------------------------------------------------------------------------------
+// relationship queries over generated relationship defs (history independence, no model needed)
+
+/// A small generated world for `has_relationship`: relationship defs r0..r3 (some `transitive`, some with a
+/// `reciprocalOf` declared on one side, both sides, or neither), entity defs e0..e2 in a chain, tag defs t0..t4
+/// each associating some relationships with an entity (`r1: ^e2`), records x0..x3 whose tags point at each other.
+#[derive(Clone, Debug)]
+pub struct RelCase {
+    /// per relationship: (transitive, reciprocalOf index or 255)
+    pub rels: Vec<(bool, u8)>,
+    /// per tag def: list of (relationship index, entity index)
+    pub tags: Vec<Vec<(u8, u8)>>,
+    /// per record: list of (tag index, target record index)
+    pub recs: Vec<Vec<(u8, u8)>>,
+    /// queries: (record, relationship, entity term or 255, target record or 255)
+    pub queries: Vec<(u8, u8, u8, u8)>,
+    /// the history: indices into `queries`
+    pub order: Vec<u16>,
+}
+impl Case for RelCase {
+    fn to_json(&self) -> J {
+        json!({"rels": self.rels, "tags": self.tags, "recs": self.recs, "queries": self.queries, "order": self.order})
+    }
+    fn from_json(j: &J) -> Result<Self, String> {
+        serde_json::from_value::<(Vec<(bool, u8)>, Vec<Vec<(u8, u8)>>, Vec<Vec<(u8, u8)>>, Vec<(u8, u8, u8, u8)>, Vec<u16>)>(json!([j["rels"], j["tags"], j["recs"], j["queries"], j["order"]]))
+            .map(|(rels, tags, recs, queries, order)| RelCase { rels, tags, recs, queries, order })
+            .map_err(|e| e.to_string())
+    }
+}
+
+pub fn rel_case() -> BoxedStrategy<RelCase> {
+    let rels = prop::collection::vec((any::<bool>(), prop_oneof![2 => Just(255u8), 3 => 0u8..4]), 2..=4);
+    let tags = prop::collection::vec(prop::collection::vec((0u8..4, 0u8..3), 0..3), 2..=5);
+    let recs = prop::collection::vec(prop::collection::vec((0u8..5, 0u8..4), 0..4), 2..=4);
+    let queries = prop::collection::vec((0u8..4, 0u8..4, prop_oneof![1 => Just(255u8), 1 => 0u8..3], prop_oneof![1 => Just(255u8), 2 => 0u8..4]), 2..10);
+    let order = prop::collection::vec(any::<u16>(), 3..24);
+    bx((rels, tags, recs, queries, order).prop_map(|(rels, tags, recs, queries, order)| RelCase { rels, tags, recs, queries, order }))
+}
+
+impl RelCase {
+    fn grid(&self) -> libhaystack::val::Grid {
+        let sym = |s: String| RVal::Symbol(s);
+        let mut rows: Vec<RDict> = vec![];
+        let mut def = |name: String, is: Vec<&str>, extra: Vec<(String, RVal)>| {
+            let mut r: RDict = extra.into_iter().collect();
+            r.insert("def".into(), RVal::Symbol(name));
+            r.insert("is".into(), RVal::List(is.into_iter().map(|s| RVal::Symbol(s.to_string())).collect()));
+            rows.push(r);
+        };
+        def("marker".into(), vec![], vec![]);
+        def("relationship".into(), vec!["marker"], vec![]);
+        def("ref".into(), vec!["marker"], vec![]);
+        def("e0".into(), vec!["marker"], vec![]);
+        def("e1".into(), vec!["e0"], vec![]);
+        def("e2".into(), vec!["e1"], vec![]);
+        let nrel = self.rels.len();
+        for (i, (transitive, recip)) in self.rels.iter().enumerate() {
+            let mut extra = vec![];
+            if *transitive {
+                extra.push(("transitive".to_string(), RVal::Marker));
+            }
+            if *recip != 255 {
+                extra.push(("reciprocalOf".to_string(), sym(format!("r{}", *recip as usize % nrel))));
+            }
+            def(format!("r{i}"), vec!["relationship"], extra);
+        }
+        for (i, assoc) in self.tags.iter().enumerate() {
+            let extra = assoc.iter().map(|(r, e)| (format!("r{}", *r as usize % nrel), sym(format!("e{e}")))).collect();
+            def(format!("t{i}"), vec!["ref"], extra);
+        }
+        libhaystack::val::Grid::make_from_dicts(rows.iter().map(build_dict).collect())
+    }
+    fn record(&self, i: usize) -> libhaystack::val::Dict {
+        let mut r = RDict::new();
+        r.insert("id".into(), RVal::Ref(format!("x{i}"), None));
+        r.insert("e1".into(), RVal::Marker);
+        for (t, x) in &self.recs[i] {
+            r.insert(format!("t{}", *t as usize % self.tags.len()), RVal::Ref(format!("x{}", *x as usize % self.recs.len()), None));
+        }
+        build_dict(&r)
+    }
+    fn ask(&self, ns: &'static libhaystack::defs::namespace::Namespace<'static>, q: &(u8, u8, u8, u8)) -> bool {
+        let n = self.recs.len();
+        let subject = self.record(q.0 as usize % n);
+        let rel = Symbol::from(format!("r{}", q.1 as usize % self.rels.len()).as_str());
+        let term = if q.2 == 255 { None } else { Some(Symbol::from(format!("e{}", q.2 % 3).as_str())) };
+        let target = if q.3 == 255 { None } else { Some(Ref::from(format!("x{}", q.3 as usize % n).as_str())) };
+        let resolve = |r: &Ref| -> Option<libhaystack::val::Dict> { r.value.strip_prefix('x').and_then(|i| i.parse::<usize>().ok()).filter(|i| *i < n).map(|i| self.record(i)) };
+        ns.has_relationship(&subject, &rel, &term, &target, &resolve)
+    }
+}
+
+fn check_rel_history(c: &RelCase, rec: &mut Rec) -> Verdict {
+    let one_sided = c.rels.iter().enumerate().any(|(i, (_, r))| *r != 255 && c.rels[*r as usize % c.rels.len()].1 as usize % c.rels.len() != i);
+    if one_sided {
+        rec.class("relationships:reciprocalOf-declared-on-one-side");
+    }
+    if c.rels.iter().any(|(t, _)| *t) {
+        rec.class("relationships:transitive");
+    }
+    let r = guarded(|| -> Verdict {
+        // the cold answer of each query: asked first, on a namespace of its own
+        let cold: Vec<bool> = c
+            .queries
+            .iter()
+            .map(|q| {
+                let ns = OwnedNs::make(c.grid());
+                c.ask(ns.get(), q)
+            })
+            .collect();
+        if cold.iter().any(|b| *b) {
+            rec.class("relationships:some-query-holds");
+            rec.nontrivial(key_of(&format!("{c:?}")));
+        }
+        let shared = OwnedNs::make(c.grid());
+        for (step, qi) in c.order.iter().enumerate() {
+            let i = idx(*qi, c.queries.len());
+            let got = c.ask(shared.get(), &c.queries[i]);
+            if got != cold[i] {
+                return Verdict::fail(
+                    "C14:history:relationship",
+                    format!("has_relationship query {:?} answers {} on a cold namespace and {got} as query number {} of a history (rels {:?}, tags {:?}, recs {:?})", c.queries[i], cold[i], step + 1, c.rels, c.tags, c.recs),
+                );
+            }
+        }
+        Verdict::Pass
+    });
+    match r {
+        Ok(v) => v,
+        Err(p) => Verdict::fail(format!("C14:history:relationship:{}", panic_sig(&p)), format!("{} at {}", p.msg, p.location)),
+    }
+}
+
 pub fn probe_schedule(args: &[String]) -> i32 {
     let Some(path) = args.first() else { return 2 };
     let Ok(text) = std::fs::read_to_string(path) else { return 2 };
@@ -438,11 +571,12 @@ pub fn probe_schedule(args: &[String]) -> i32 {
 }
 
 pub fn run(ctx: &mut Ctx) {
-    ctx.rule("histories (deterministic): generated query sequences on a freshly built namespace in four orders (each query twice in a row, reversed, rotated, forward-then-reverse); every answer must equal the stateless subtype-graph model, and association/relationship answers must equal those of a cold namespace; schedules: 2-16 threads started on a barrier, each issuing a generated query list against one cold namespace (generated taxonomy or the real defs) while a generated per-thread plan (nothing / yield / sleep 50us / spin) is applied at the caches' critical points through the sched_point hook; every answer of every thread must equal the model, no panic, completion within 30 s (a stuck schedule is re-run in a child process before it is called a deadlock); stress: 16 threads x 200 queries on cold real-defs namespaces; non-trivial: a schedule in which the hook observed two threads inside the same cache-miss window / a history of >= 3 queries; distinct by case");
+    ctx.rule("histories (deterministic): generated query sequences on a freshly built namespace in four orders (each query twice in a row, reversed, rotated, forward-then-reverse); every answer must equal the stateless subtype-graph model, and association/relationship answers must equal those of a cold namespace (real defs, and generated worlds of relationship defs - transitive or not, `reciprocalOf` declared on one side, both or none - with tag defs, records pointing at each other and 3-24 has_relationship queries in a generated order); schedules: 2-16 threads started on a barrier, each issuing a generated query list against one cold namespace (generated taxonomy or the real defs) while a generated per-thread plan (nothing / yield / sleep 50us / spin) is applied at the caches' critical points through the sched_point hook; every answer of every thread must equal the model, no panic, completion within 30 s (a stuck schedule is re-run in a child process before it is called a deadlock); stress: 16 threads x 200 queries on cold real-defs namespaces; non-trivial: a schedule in which the hook observed two threads inside the same cache-miss window / a history of >= 3 queries; distinct by case");
     ctx.assume("schedule exploration is biased sampling of OS interleavings, not enumeration; the history half is deterministic");
     let max_defs = ctx.tier.pick(16, 30) as usize;
     ctx.run_sub::<NsCase>("history", ctx.tier.pick(3_200, 64_000), &move || ns_case(max_defs, 30), &check_history);
     relationship_history(ctx);
+    ctx.run_sub::<RelCase>("relationship-history", ctx.tier.pick(8_000, 160_000), &rel_case, &check_rel_history);
     ctx.run_sub::<SchedCase>("schedule", ctx.tier.pick(1_600, 48_000), &move || sched_case(max_defs), &check_schedule);
     ctx.extra.insert("sched_points_hit".into(), json!(POINTS.load(Ordering::Relaxed)));
     ctx.extra.insert("miss_window_overlaps".into(), json!(OVERLAPS.load(Ordering::Relaxed)));
@@ -477,6 +611,7 @@ pub fn run(ctx: &mut Ctx) {
 pub fn replay(kind: &str, case: &J, rec: &mut Rec) -> Verdict {
     match kind {
         "history" => NsCase::from_json(case).map(|c| check_history(&c, rec)).unwrap_or_else(|e| Verdict::fail("infra:bad-replay", e)),
+        "relationship-history" if case.get("rels").is_some() => RelCase::from_json(case).map(|c| check_rel_history(&c, rec)).unwrap_or_else(|e| Verdict::fail("infra:bad-replay", e)),
         "schedule" => match SchedCase::from_json(case) {
             Ok(c) => {
                 // a replay re-runs the same plan several times: the OS may interleave differently each time
